@@ -191,3 +191,29 @@ func init() {
 	reg("unicode/utf8.RuneCountInString", runeCount)
 	reg("unicode/utf8.RuneCount", runeCount)
 }
+
+func init() {
+	// ASCII-only, fork-free ToLower/ToUpper; a feasible non-ASCII byte ends
+	// the path as unsupported (outside the claim of every harness using it).
+	mk := func(lo, hi uint64, delta uint64) intrinsicFn {
+		return func(fr *frame, args []Value) Value {
+			e := fr.e
+			b := bytesOf(args[0])
+			nonASCII := e.tt.False
+			for _, c := range b {
+				nonASCII = e.tt.Or(nonASCII, e.tt.Cmp(OpUle, e.tt.BV(8, 0x80), c))
+			}
+			if e.branch(nonASCII) {
+				unsupported("strings.ToLower/ToUpper on non-ASCII input")
+			}
+			out := make([]*Term, len(b))
+			for i, c := range b {
+				in := e.tt.And(e.tt.Cmp(OpUle, e.tt.BV(8, lo), c), e.tt.Cmp(OpUle, c, e.tt.BV(8, hi)))
+				out[i] = e.tt.Ite(in, e.tt.Bin(OpAdd, c, e.tt.BV(8, delta)), c)
+			}
+			return Str{out}
+		}
+	}
+	reg("strings.ToLower", mk('A', 'Z', 32))
+	reg("strings.ToUpper", mk('a', 'z', 0x100-32))
+}
